@@ -53,8 +53,13 @@ class C01Bloom(Scenario):
             chans = structs.ALL_SUBJECTS[name].channels
             return {"op": "restart", "chan": rng.choice(chans), "dir": rng.choice(seams.Scratch.DIRS),
                     "style": rng.choice(STYLES), "stale": rng.chance(1, 3)}
-        if r < 93:
+        if r < 91:
             return {"op": "chdir", "dir": rng.choice(seams.Scratch.DIRS)}
+        if r < 94:
+            # another structure in the same process uses the same hash strategy at another depth, on the same keys
+            # and on many others (strategies may keep process-global state such as caches)
+            return {"op": "noise", "depth": rng.choice((1, 2, 3, 7, 40)), "flood": rng.choice((0, 100, 700)),
+                    "tag": rng.below(1000)}
         if r < 96 and name != "ExpandingBloomFilter":
             return {"op": "clear"}
         if name == "BloomFilterOnDisk":
@@ -178,6 +183,15 @@ class C01Bloom(Scenario):
         elif op == "chdir":
             scr.chdir(step["dir"])
             ctx.fault("cwd_change")
+        elif op == "noise":
+            from probables.hashes import default_fnv_1a
+
+            hf = self.env.hf or default_fnv_1a
+            for k in range(self.cfg["universe"]):
+                hf(seams.key_of(k), step["depth"])
+            for i in range(step["flood"]):
+                hf(f"noise-{step['tag']}-{i}", step["depth"])
+            ctx.fault("other_user_of_hash_strategy")
         elif op in ("close", "drop"):
             if self.kind != "BloomFilterOnDisk":
                 return "skip"
